@@ -308,23 +308,6 @@ def reference(rsp, kind):
     return "n/a"
 
 
-def stored_inside(tag, base):
-    """Type 1/2 only: do the length field and the value of the message TLV the reader found lie inside the
-    data area (placed around the reader's skip bytes)?  Used to tell the capacity formula's own
-    shortfall (257 free bytes and a 254 byte message with a one byte length field; length field on a reserved
-    byte) from a message that reaches beyond the area."""
-    try:
-        nd = tag._ndef
-        if nd is None or base not in ("t1", "t2"):
-            return False
-        mem, off, skip = nd._tag_memory, nd._ndef_tlv_offset, nd._skip_bytes
-        end = (mem[10] + 1) * 8 if base == "t1" else mem[14] * 8 + 16
-        head = off + (4 if mem[off + 1] == 0xFF else 2)
-        return head <= end and nd.length <= len(set(range(head, end)) - skip)
-    except Exception:
-        return False
-
-
 def probe_fixes():
     """which termination repairs of fixes/C08 (0010-0012) and fixes/C12 (sticky errno) the tree under test contains,
     found by behaviour: -> flags string for the model driver ('s' sticky errno, 'w' S(WTX) limited, 'a' retransmission
@@ -405,16 +388,16 @@ class Runner(object):
         else:
             for what in r.bad:
                 ck.fail("%s-unexpected-return-value" % base, "%s: %s" % (kind, what), d)
-            if r.ndef is not None or r.length is not None:
-                if r.length is not None and r.length > r.capacity:
-                    if stored_inside(r.tag, base):
+            for length, capacity, noct, inside in r.snaps:
+                if length > capacity:
+                    if inside:
                         # the message IS stored completely inside the data area: get_capacity under-reports
                         ck.fail("t12-capacity-below-stored-length", "%s: ndef.length %d > ndef.capacity %d although the message lies "
-                                "inside the data area" % (kind, r.length, r.capacity), d)
+                                "inside the data area" % (kind, length, capacity), d)
                     else:
-                        ck.fail("%s-length-exceeds-capacity" % base, "%s: ndef.length %d > ndef.capacity %d" % (kind, r.length, r.capacity), d)
-                if r.octets is not None and len(r.octets) != r.length:
-                    ck.fail("%s-length-octets-mismatch" % base, "%s: length %d, %d octets" % (kind, r.length, len(r.octets)), d)
+                        ck.fail("%s-length-exceeds-capacity" % base, "%s: ndef.length %d > ndef.capacity %d" % (kind, length, capacity), d)
+                if noct != length:
+                    ck.fail("%s-length-octets-mismatch" % base, "%s: length %d, %d octets" % (kind, length, noct), d)
             ref = reference(rsp, base) if stop_after is None and not garble else "n/a"
             if ref != "n/a" and r.ndef is not None:
                 if ref is None:
@@ -541,39 +524,48 @@ def run(ck):
                 rsp, d = gen(rng, big=True)
                 R.case(rsp, d, budget)
         R.flush("long messages")
-        # the repaired ISO-DEP loops at their full length: 59 * 2^14 S(WTX) requests with WTXM 1 at FWI 0 are granted, the
-        # next one ends the exchange; 65538 chained blocks of one octet are accepted, the next one is a protocol error
+        # the repaired ISO-DEP loops at (nearly) their full length: at FWI 5 59 * 2^9 = 30208 S(WTX) requests with WTXM 1 are
+        # granted, the next one ends the exchange; 65538 chained blocks of one octet are accepted, the next one is a
+        # protocol error  (the list based model needs quadratic time in the number of frames: FWI 0 is left out)
         cc = A.t4_cc(0x20, 59, 52, 4, 100)
         f = struct.pack(">H", 5) + b"hello" + bytes(93)
         if "w" in R.flags:
-            R.case(A.T4Adv(cc, f, ats=b"\x05\x78\x80\x00\x02", frame_mode="wtx", frame_from=2, wtxm=1),
-                   {"kind": "t4", "witness": "t4:FWI 0, S(WTX) flood with WTXM 1 up to the limit 966656"}, 966656 + 100, ops="n")
-            R.case(A.T4Adv(cc, f, ats=b"\x05\x78\x80\x00\x02", frame_mode="wtx", frame_from=2, wtxm=1, flood_len=966656),
-                   {"kind": "t4", "witness": "t4:FWI 0, exactly 966656 S(WTX) requests with WTXM 1, then the response"}, 966656 + 100, ops="n")
+            for n in (None, 30207, 30208, 30209):
+                R.case(A.T4Adv(cc, f, ats=b"\x05\x78\x80\x50\x02", frame_mode="wtx", frame_from=2, wtxm=1, flood_len=n),
+                       {"kind": "t4", "witness": "t4:FWI 5, %s S(WTX) requests with WTXM 1 (limit 30208)" % (n or "endless")}, 30208 + 200, ops="n")
         if "c" in R.flags:
-            for n in (65537, 65538, 65539):
-                R.case(A.T4Adv(cc, f, frame_mode="chain", frame_from=2, flood_inf=1, flood_len=n),
-                       {"kind": "t4", "witness": "t4:%d chained response blocks of one octet" % n}, 70000, ops="n")
+            R.case(A.T4Adv(cc, f, frame_mode="chain", frame_from=2, flood_inf=1),
+                   {"kind": "t4", "witness": "t4:endless chained response blocks of one octet (65538 are accepted)"}, 70000, ops="n")
         R.flush("repaired ISO-DEP loops at full length")
 
-    ck.rule = ("cases = (responder description, 'stops answering after n' point, garbled answer) per tag type: Type 1/2 memory images "
+    ck.rule = ("cases = (responder description, sequence of operations on the tag object out of tag.ndef / has_changed / is_present, "
+               "'stops answering after n' point, garbled answer) per tag type: Type 1/2 memory images "
                "with hostile TLV streams (control TLVs of any length pointing anywhere, NDEF TLV fitting / ending at / beyond the data "
-               "area, 3-byte length fields), physical memory shorter or longer than announced, NAK / mute / roll-over / truncated "
-               "answers, sector select variants, NXP authenticate / GET_VERSION probing; Type 3 attribute blocks (Nbr 0..255, Ln vs "
-               "Nmaxb, checksums, versions), polling variants, IC codes, with/without system code; Type 4 A/B with every ATS "
-               "shape (TA/TB/TC subsets, 0..15 historical bytes, truncations), SENSB_RES/ATTRIB variants, CC mutations, NLEN vs file "
-               "size, READ BINARY returning nothing / too much / one octet, response chaining, frame level S(WTX) / R(ACK) / chaining "
-               "floods; plus answers that ignore the command entirely. Non-trivial = the reader made more than one interaction. "
-               "Distinct = distinct (description, cut, garble) tuples.")
+               "area, reserved ranges inside and at the end of the area, 3-byte length fields), physical memory shorter or longer than "
+               "announced, NAK / mute / roll-over / truncated answers, sector select variants, NXP authenticate / GET_VERSION probing; "
+               "Type 3 attribute blocks (Nbr 0..255, Ln vs Nmaxb, checksums, versions), polling answers of 0..21 data octets with "
+               "unrequested / without requested request data, Request Response answers, all IC codes, with/without system code; Type 4 "
+               "A/B with every ATS shape (TL, T0 with every TA/TB/TC subset, every FSCI / FWI, 0..15 historical bytes, truncations), "
+               "SENS_RES / SEL_RES / UID size variants, SENSB_RES / ATTRIB variants, CC mutations, NLEN vs file size, READ BINARY "
+               "returning nothing / too much / one octet, response chaining, frame level S(WTX) / R(ACK) / chaining floods of every "
+               "length around the limits of the repaired initiator; plus answers that ignore the command entirely. tag.dump() runs as "
+               "oracle-only cases on a third of the responders. Non-trivial = the reader made more than one interaction. "
+               "Distinct = distinct (description, operations, cut, garble) tuples.")
     ck.assumptions += [
         "well-framed = the driver delivered a frame with correct CRC/parity; content and length are arbitrary. A missing answer is "
         "nfc.clf.TimeoutError; TransmissionError/ProtocolError bursts are the subject of C16",
-        "activation inputs have the lengths the drivers deliver: SENS_RES 2, SEL_RES 1, SDD_RES 4/7/10, RID_RES 6, SENSB_RES 12/13, "
-        "SENSF_RES 17/19 octets; clf.max_send_data_size >= 16",
-        "the model is of the tree WITH fixes/C08 applied; on a tree without them the oracle reports the defects",
+        "activation inputs have the lengths the drivers deliver (WellFramedS): SENS_RES 2, SEL_RES 1, SDD_RES 4/7/10, RID_RES 6, "
+        "SENSB_RES 12/13, SENSF_RES 17/19 octets; clf.max_send_data_size >= 16",
+        "the model is of the tree WITH fixes/C08 (0001-0016); which of the ISO-DEP termination repairs 0010-0012 and fixes/C12/0003 "
+        "the tree under test contains is found by behaviour (probe_fixes: flags '%s' on this tree) and the model follows; on a tree "
+        "without the other repairs the oracle reports the defects" % R.flags,
+        "tag.dump() is outside the model: the oracle demands that it ends within the budget of the tag type and raises nothing "
+        "but TagCommandError (a tag that stops answering makes dump() of Type 1 / FeliCa Lite raise TagCommandError by design)",
     ]
     ck.trusted += ["harness/sims/adv_tags.py (adversarial responders, budgeted fake clf)", "drv_c08 (compiled Lean model driver)",
-                   "Python set of skip bytes = list of ranges in the model"]
+                   "Python set of skip bytes = list of ranges in the model",
+                   "int(MAX_WTX_TIME / fwt) = 59 * 2^(14 - FWI) and min(int(1 / fwt), 5) as integer formulas (checked for FWI 0..14 "
+                   "by the boundary cases of the corpus: one request more / less than the limit)"]
 
 
 def mem_ctl_tlv(start, size, lock=False):
@@ -857,6 +849,7 @@ def corpus(R):
     c(A.T1Adv(b"\x12\x4c", t1img(0x3F, b"\x03\xff\xff\xffabc")), "t1:length 65535 -> RSEG 16")
     c(A.T1Adv(b"\x12\x4c", t1img(0xFF, bytes(2035) + b"\x03")), "t1:TLV type byte at 2047")
     c(A.T1Adv(b"\x11\x48", t1img(0x0E, b"\x03\x03abc\xfe"), rall=0), "t1:empty RALL answer")
+    c(A.T1Adv(b"\x11\x48", t1img(0x0E, bytes(90) + b"\x03\x00")), "t1:empty message TLV right before the reserved octets 104..119 (capacity -1)")
     c(A.T1Adv(b"\x12\x4c", t1img(0x3F, b"\x03\xf0abc")), "t1:tag leaves after RALL", stop_after=1)
     c(A.T3Adv(A.t3_attr(0x10, 0, 1, 10, 0, 1, 5), b"hello"), "t3:F15 Nbr = 0")
     c(A.T3Adv(A.t3_attr(0x10, 4, 1, 2, 0, 1, 100), bytes(100)), "t3:F15 Ln 100 > Nmaxb*16 = 32")
